@@ -8,6 +8,7 @@ import Driver.HashTbl
 import Driver.ListTbl
 import Driver.Conf
 import Driver.HashArr
+import Driver.HarrMem
 
 def main (args : List String) : IO UInt32 := do
   match args with
@@ -23,4 +24,5 @@ def main (args : List String) : IO UInt32 := do
   | ["listtbl"] => Driver.ListTbl.run; return 0
   | ["conf"] => Driver.Conf.run; return 0
   | ["hasharr"] => Driver.HashArr.run; return 0
+  | ["harrmem"] => Driver.HarrMem.run; return 0
   | _ => IO.eprintln "usage: qdriver <module>"; return 2
